@@ -1220,14 +1220,30 @@ func c05Skeleton(c *Ctx, f *ssa.Function, unit int64, nibbles bool) {
 	okLen := false
 	for _, ci := range core.CallsTo(f, "net/netip.PrefixFrom") {
 		call := ci.(*ssa.Call)
-		if mul, ok := call.Call.Args[1].(*ssa.BinOp); ok && mul.Op == token.MUL {
-			if k, isK := core.ConstInt(mul.Y); isK && k == unit {
+		// unit * n, n * unit, or n << log2(unit)
+		var factor ssa.Value
+		if mul, ok := call.Call.Args[1].(*ssa.BinOp); ok {
+			switch mul.Op {
+			case token.MUL:
+				if k, isK := core.ConstInt(mul.Y); isK && k == unit {
+					factor = mul.X
+				} else if k, isK := core.ConstInt(mul.X); isK && k == unit {
+					factor = mul.Y
+				}
+			case token.SHL:
+				if k, isK := core.ConstInt(mul.Y); isK && k >= 0 && k < 16 && int64(1)<<uint(k) == unit {
+					factor = mul.X
+				}
+			}
+		}
+		if factor != nil {
+			{
 				okLen = true
 				var vals []ssa.Value
-				if ph, ok := mul.X.(*ssa.Phi); ok && ph != l {
+				if ph, ok := factor.(*ssa.Phi); ok && ph != l {
 					vals = ph.Edges
 				} else {
-					vals = []ssa.Value{mul.X}
+					vals = []ssa.Value{factor}
 				}
 				for _, v := range vals {
 					// the counter at loop exit: l itself, or l+1 when leaving after the increment
